@@ -8,8 +8,8 @@ import (
 	"math/big"
 	"os"
 	"runtime"
-	"strconv"
 	"sort"
+	"strconv"
 	"strings"
 	"sync"
 	"sync/atomic"
@@ -156,13 +156,21 @@ func execLine(line string) (out string) {
 }
 
 // execLineTimed adds a watchdog: a case that does not finish is reported as TIMEOUT.
+// After three timeouts the remaining cases are not started any more (a hanging implementation
+// would otherwise cost the watchdog period per case); they are reported as skipped.
+var timeouts atomic.Int32
+
 func execLineTimed(line string, limit time.Duration) string {
+	if timeouts.Load() >= 3 {
+		return "SKIPPED-AFTER-TIMEOUTS"
+	}
 	ch := make(chan string, 1)
 	go func() { ch <- execLine(line) }()
 	select {
 	case s := <-ch:
 		return s
 	case <-time.After(limit):
+		timeouts.Add(1)
 		return "TIMEOUT"
 	}
 }
